@@ -1201,7 +1201,12 @@ class Mesh:
 
         """
         elements = self.normalize_elements(elements)
-        p, t, ix = self._reix(self.t[:, elements])
+        # use all nodes of the elements: for higher order meshes t has only
+        # the vertices, and the constructor accepts the extra nodes as
+        # additional rows of the connectivity
+        p, t, ix = self._reix(self.dofs.element_dofs[:, elements])
+        # mapping for the vertices only
+        ix = ix[np.unique(t[:self.t.shape[0]])]
 
         new_subdomains = None
         if not skip_subdomains and self.subdomains is not None:
